@@ -67,6 +67,25 @@ Theorem C13_after_genuine_inert : forall tagf ops1 s p ops2,
 Proof. exact after_genuine_inert. Qed.
 Print Assumptions C13_after_genuine_inert.
 
+(** The full clause, including replayed and corrupted packets that carry the GENUINE connection IDs ([stale]: another
+    version; an Initial after the Initial keys were dropped, protected with other keys than the connection's, or with a
+    packet number that was already processed): inserted anywhere after the first authenticated packet, none of them
+    changes the final state or any non-drop outcome. *)
+Theorem C13_after_genuine_inert_strong : forall tagf ops1 s p ops2,
+  rcvFirst s = true -> forged (client s) (hsDCID s) p \/ stale s p ->
+  fst (run tagf s (ops1 ++ OpPkt p :: ops2)) = fst (run tagf s (ops1 ++ ops2)) /\
+  filter nondrop (snd (run tagf s (ops1 ++ OpPkt p :: ops2))) = filter nondrop (snd (run tagf s (ops1 ++ ops2))).
+Proof. exact after_genuine_inert_strong. Qed.
+Print Assumptions C13_after_genuine_inert_strong.
+
+(** non-vacuity: after the genuine Initial (pn 0, keys of [1;2;3]) its replay and a corrupted copy are stale *)
+Example C13_stale_example :
+  let s := fst (run (fun od _ _ => od) (init_client 1 [1] false [1;2;3] []) [OpPkt (PLong TInitial 1 [4;4] [1;2;3] 0 PlPing)]) in
+  rcvFirst s = true /\ stale s (PLong TInitial 1 [4;4] [1;2;3] 0 PlClose) /\ stale s (PLong TInitial 1 [4;4] [9;9] 7 PlClose) /\
+  stale s (PLong THandshake 2 [4;4] [1;2;3] 1 PlPing).
+Proof. vm_compute. repeat split; auto. right. split; auto. right. left. discriminate. left. discriminate. Qed.
+Print Assumptions C13_stale_example.
+
 (** ... and each such packet is itself dropped without touching the state; every later step keeps
     the decision state (version, DCIDs, retry SCID, token, Initial-key CID). *)
 Theorem C13_after_genuine_step : forall tagf s,
@@ -113,11 +132,14 @@ Print Assumptions C13_forged_retry_rejected.
     changes neither state nor outcomes. (Repaired in /repo: handlePackets used to go on with the queue after
     handleVersionNegotiationPacket had destroyed the connection, finding
     simhandshake/dial-ok-closed/version-negotiation.) *)
-Theorem C13_closed_stops : forall tagf ops1 s s1 outs ops2,
+(** (By construction of [run]: the content is in the CaseBatch / hstrace correspondence, which shows that the real
+    handlePackets loop and real connections stop where the model stops. The loop over coalesced packets inside one
+    datagram (handleOneDatagram keeps going after a CONNECTION_CLOSE in an earlier coalesced packet) is not modelled.) *)
+Theorem C13_closed_stops_by_construction : forall tagf ops1 s s1 outs ops2,
   run tagf s ops1 = (s1, outs) -> terminal (last outs ONone) = true ->
   run tagf s (ops1 ++ ops2) = (s1, outs).
 Proof. exact closed_stops. Qed.
-Print Assumptions C13_closed_stops.
+Print Assumptions C13_closed_stops_by_construction.
 
 (** Handshake deadline: while the handshake is incomplete the timer deadline is at most
     creation + 2 * HandshakeIdleTimeout, and a wake-up at or after the deadline closes the connection
